@@ -10,7 +10,7 @@ from sx.fsmodel import FS
 
 PROPERTY = "C16"
 BOUNDS = {
-    "quick": "real asyncio loop in virtual time; exit moment k sym [0,12] loop turns after entry (every file operation of the model is a suspension point, so k lands before the saver first runs, inside each operation of a save, and in its sleep); body ends normally or raises; fault bits: connect fails, disconnect fails; transport kinds: stub, TCPTransport and SerialTransport on fake reader/writer, MQTTClient on a fake broker client; virtual durations D in {0,1,899,900,901,1800,2700} s; persistence file present (2 nodes) or missing",
+    "quick": "real asyncio loop in virtual time; exit moment k sym [0,12] loop turns after entry (every file operation of the model is a suspension point, so k lands before the saver first runs, inside each operation of a save, and in its sleep); body ends normally or raises; fault bits: connect fails (with a transport error, or - stub transport - interrupted by CancelledError), disconnect fails; transport kinds: stub, TCPTransport and SerialTransport on fake reader/writer, MQTTClient on a fake broker client; virtual durations D in {0,1,899,900,901,1800,2700} s; persistence file present (2 nodes) or missing",
     "thorough": "k sym [0,20], D additionally {3599,3600,9000}",
 }
 REALISED = ["k and D are forked into concrete values (each is one path)"]
@@ -36,6 +36,8 @@ class LifeTransport:
         from aiomysensors.exceptions import TransportError
 
         await asyncio.sleep(0)
+        if self.connect_fault == "cancel":
+            raise asyncio.CancelledError()  # connect interrupted by a cancellation / timeout
         if self.connect_fault:
             raise TransportError("injected connect fault")
         self.connected = True
@@ -161,6 +163,8 @@ def sym_exit(inp, part):
     disconnect_fault = inp.bool("disconnect_fault")
     body_raises = inp.bool("body_raises")
     connect_fault = bool(connect_fault)
+    if connect_fault and kind == "stub" and inp.bool("connect_cancelled"):
+        connect_fault = "cancel"
     disconnect_fault = bool(disconnect_fault)
     body_raises = bool(body_raises)
     fs = FS(_initial_files(part["missing"]), yielder=_yield)
@@ -209,6 +213,12 @@ def sym_exit(inp, part):
         if restore is not None:
             setattr(restore[0], restore[1], restore[2])
     exc, entered, gw = state["exc"], state["entered"], state["gw"]
+    if connect_fault == "cancel":
+        if state["left"]:
+            raise Violation("task-left-behind", "connect was cancelled: %d background task(s) still running: %s" % (state["left"], state["left_names"]))
+        if not isinstance(exc, asyncio.CancelledError) or entered:
+            raise Violation("connect-cancellation-swallowed", "connect was cancelled but %r propagated (entered=%s)" % (exc, entered))
+        return ["connect-failed-clean", kind]
     if isinstance(exc, asyncio.CancelledError):
         raise Violation("cancelled-error-escapes", "'async with Gateway' raised CancelledError (exit after %d turns, body_raises=%s)" % (k, body_raises))
     if state["left"]:
